@@ -670,16 +670,6 @@ impl<'lexer> Lexer<'lexer> {
     }
 
     // ------------------------------------------------------------------------
-    // tweak with name of the `item` in filter
-    // ------------------------------------------------------------------------
-    if let Some(part_name) = parts.get(0) {
-      if part_name == "item" {
-        self.position = consumed_positions[0] + 1;
-        return Ok((TokenType::Name, TokenValue::Name(Name::from("item"))));
-      }
-    }
-
-    // ------------------------------------------------------------------------
     // tweak with the name in `for` and `quantified` expressions
     // variable name is the name before the keyword `in`
     // ------------------------------------------------------------------------
@@ -724,6 +714,17 @@ impl<'lexer> Lexer<'lexer> {
         return Ok((TokenType::BuiltInTypeName, TokenValue::BuiltInTypeName(part_sublist.to_vec().into())));
       }
       part_count -= 1;
+    }
+
+    // ------------------------------------------------------------------------
+    // tweak with name of the `item` in filter
+    // (a bound name that begins with the word `item` has been found above)
+    // ------------------------------------------------------------------------
+    if let Some(part_name) = parts.get(0) {
+      if part_name == "item" {
+        self.position = consumed_positions[0] + 1;
+        return Ok((TokenType::Name, TokenValue::Name(Name::from("item"))));
+      }
     }
 
     // build the name from name parts
